@@ -133,9 +133,10 @@ def make_pub(f):
 
 def extract(region, unit_cfg):
     src = load_source(region.file)
+    lift = "#" in region.name
     try:
         if region.kind == "fn":
-            s, bo, e = src.find_fn(region.name, region.impl, region.trait)
+            s, bo, e = src.find_fn(region.name.split("#")[0], region.impl, region.trait)
         elif region.kind == "type":
             s, e = src.find_type(region.name)
         else:
@@ -146,6 +147,31 @@ def extract(region, unit_cfg):
     l0, l1 = src.span_lines(s, e)
     info = {"item": region.label, "file": region.file, "lines": [l0, l1], "sha256": hashlib.sha256(text.encode()).hexdigest()}
     substs = unit_cfg.get("subst", {}).get(region.label)
+    lift_log = None
+    if lift:
+        # R22 closure lifting: the body of ONE closure of the function (the first closure after the anchor text) is verified as a
+        # function of its captured variables, which the unit names as parameters; the closure's block is taken verbatim
+        spec = unit_cfg.get("lift", {}).get(region.label)
+        if not spec:
+            raise UnitError("extract %s: no `lift` entry in unit.json" % region.label)
+        toks = rscan.tokenize(text)
+        br = rscan.match_brackets(toks)
+        anchor = [t.text for t in rscan.tokenize(spec["anchor"])]
+        hits = [i for i in range(len(toks) - len(anchor) + 1) if [t.text for t in toks[i:i + len(anchor)]] == anchor]
+        if len(hits) != 1:
+            raise UnitError("extract %s: R22 anchor `%s` found %d times (expected 1)" % (region.label, spec["anchor"], len(hits)))
+        k = hits[0] + len(anchor)
+        while k < len(toks) and toks[k].text != "{":
+            if toks[k].text not in ("|", "||", "move", ",", ":", "&", "mut", "_") and toks[k].kind != "ident":
+                raise UnitError("extract %s: R22 expected the closure's block after the anchor" % region.label)
+            k += 1
+        if k >= len(toks) or k not in br:
+            raise UnitError("extract %s: R22 closure block not found" % region.label)
+        block = text[toks[k].pos:toks[br[k]].end]
+        lift_log = {"rule": "R22", "at": "%s:%d" % (region.file, l0), "before": "closure after `%s` in %s" % (spec["anchor"], region.label.split("#")[0]), "after": spec["header"], "why": spec.get("why", "closure body verified as a function of its captured variables")}
+        text = spec["header"] + " " + block
+        info["sha256"] = hashlib.sha256(text.encode()).hexdigest()
+        info["lifted_closure"] = spec["anchor"]
     try:
         if region.kind == "type":
             text2, inner = strip_attrs(text)
@@ -168,6 +194,8 @@ def extract(region, unit_cfg):
             f = rules_mod.rewrite(text, "%s:%d" % (region.file, l0), region.rules, substs, wc, unit_cfg.get("guard_calls") if "R21" in region.rules else None)
     except (rules_mod.RuleError, rscan.ScanError) as ex:
         raise UnitError("rewrite %s: %s" % (region.label, ex))
+    if lift_log:
+        f.log.insert(0, lift_log)
     return f.text, f.log, info
 
 
